@@ -25,6 +25,7 @@ import (
 	"strconv"
 	"strings"
 	"sync"
+	"sync/atomic"
 	"testing"
 	"time"
 
@@ -83,10 +84,14 @@ func verifC18PanicString(r interface{}) string {
 
 // verifC18Parallel runs fn(0..n-1) in n goroutines released together; panics are
 // recovered and returned as "[panic] ..." messages together with the messages the
-// functions return themselves.
-func verifC18Parallel(n int, what string, fn func(i int) []string) (msgs []string, finished bool) {
+// functions return themselves. The functions call beat() while they make progress:
+// the wait is given up (finished == false) only when no goroutine has made progress
+// for 6 stop timeouts, so the limit does not depend on the iteration count.
+func verifC18Parallel(n int, what string, fn func(i int, beat func()) []string) (msgs []string, finished bool) {
 	var mu sync.Mutex
 	var wg sync.WaitGroup
+	var beats atomic.Int64
+	beat := func() { beats.Add(1) }
 	start := make(chan struct{})
 	for i := 0; i < n; i++ {
 		wg.Add(1)
@@ -100,7 +105,7 @@ func verifC18Parallel(n int, what string, fn func(i int) []string) (msgs []strin
 				}
 			}()
 			<-start
-			out := fn(i)
+			out := fn(i, beat)
 			mu.Lock()
 			msgs = append(msgs, out...)
 			mu.Unlock()
@@ -109,15 +114,22 @@ func verifC18Parallel(n int, what string, fn func(i int) []string) (msgs []strin
 	done := make(chan struct{})
 	go func() { wg.Wait(); close(done) }()
 	close(start)
-	timer := time.NewTimer(12 * verifC18StopTimeout)
-	defer timer.Stop()
-	select {
-	case <-done:
-		mu.Lock()
-		defer mu.Unlock()
-		return msgs, true
-	case <-timer.C:
-		return nil, false
+	ticker := time.NewTicker(50 * time.Millisecond)
+	defer ticker.Stop()
+	last, lastChange := beats.Load(), time.Now()
+	for {
+		select {
+		case <-done:
+			mu.Lock()
+			defer mu.Unlock()
+			return msgs, true
+		case <-ticker.C:
+			if b := beats.Load(); b != last {
+				last, lastChange = b, time.Now()
+			} else if time.Since(lastChange) > 6*verifC18StopTimeout {
+				return nil, false
+			}
+		}
 	}
 }
 
@@ -528,9 +540,10 @@ func TestVerifC18_IndependentHandles(t *testing.T) {
 			assignment[i] = files[rng.Intn(len(files))]
 		}
 	}
-	msgs, finished := verifC18Parallel(nReaders, name+" readers", func(i int) []string {
+	msgs, finished := verifC18Parallel(nReaders, name+" readers", func(i int, beat func()) []string {
 		var out []string
 		for rep := 0; rep < reps; rep++ {
+			beat()
 			p := assignment[i]
 			if i%2 == 1 {
 				p = files[(i+rep*3)%len(files)]
@@ -571,14 +584,16 @@ func TestVerifC18_IndependentHandles(t *testing.T) {
 		wantWritten[i] = d
 	}
 	wreps := 1 + iters/10
-	msgs, finished = verifC18Parallel(nWriters, name+" writers", func(i int) []string {
+	msgs, finished = verifC18Parallel(nWriters, name+" writers", func(i int, beat func()) []string {
 		var out []string
 		for rep := 0; rep < wreps; rep++ {
+			beat()
 			p := filepath.Join(dir, fmt.Sprintf("par_%d_%d.h5", i, rep))
 			if err := verifC18WriteFile(p, i); err != nil {
 				out = append(out, fmt.Sprintf("[result-diff] %s seed=%d writer=%d rep=%d: %v", name, seed, i, rep, err))
 				continue
 			}
+			beat()
 			got, err := verifC18Dump(p)
 			if err != nil {
 				out = append(out, fmt.Sprintf("[result-diff] %s seed=%d writer=%d rep=%d: dump failed: %v", name, seed, i, rep, err))
@@ -797,10 +812,11 @@ func TestVerifC18_BufferPoolNoAlias(t *testing.T) {
 	for i := range seeds {
 		seeds[i] = rng.Int63()
 	}
-	msgs, finished := verifC18Parallel(len(seeds), name+" churn", func(i int) []string {
+	msgs, finished := verifC18Parallel(len(seeds), name+" churn", func(i int, beat func()) []string {
 		r := rand.New(rand.NewSource(seeds[i]))
 		var out []string
 		for rep := 0; rep < 1+iters/4; rep++ {
+			beat()
 			verifC18ChurnPool(r, 100)
 			if i%2 == 0 && len(others) > 0 {
 				// Other files are opened and read while the pool is being churned.
